@@ -55,7 +55,7 @@ def plan(tier, seed):
     qs += [leak(arg_query('C15', r, p), 'C17') for r in ROUT for p in 'dz']
     # worker loop: per-thread work storage is given back exactly once on every non-memory-error return (incl. singular)
     from props.C06 import thr_query
-    qs.append(thr_query('C17', 6, 2))
+    # (the plain worker-loop query runs in C06; the variant below makes the same assertions on every return with granted storage)
     # ... and when the per-thread work storage is refused (caller workspace too small for this worker) or granted, the worker's own
     # heap blocks (counting USER_MALLOC/USER_FREE) are all returned
     q = thr_query('C17', 6, 2)
